@@ -17,7 +17,7 @@ import numpy as np
 
 from . import classification, misc, morphological, polynomial, smooth, spline, whittaker
 from ._algorithm_setup import _Algorithm, _class_wrapper
-from ._validation import _check_optional_array
+from ._validation import _check_optional_array, _check_scalar_variable
 from .utils import _check_scalar, _get_edges, _sort_array, gaussian
 
 
@@ -474,6 +474,11 @@ class _Optimizers(_Algorithm):
                 y, estimation_poly_order, weight_array, baseline_func, **method_kws
             )
         else:
+            # validate the values before they are cast to integers
+            _check_scalar_variable(
+                poly_order, allow_zero=True, variable_name='polynomial order', two_d=True,
+                dtype=int
+            )
             poly_orders, scalar_poly_order = _check_scalar(poly_order, 2, True, dtype=int)
             if scalar_poly_order:
                 poly_orders[1] += 1  # add 1 since they are initially equal if scalar input
